@@ -176,6 +176,12 @@ def run_property(pid, build, tier="quick", seed=0, budget_ms=None, thorough_extr
     if res.bounded:
         cov["evaluations"] = sum(int(b.get("evaluations", 0)) for b in res.bounded)
         cov["distinct_nontrivial"] = sum(int(b.get("distinct_nontrivial", 0)) for b in res.bounded)
+    if tier == "thorough" and os.path.realpath(REPO) == "/repo" and not os.environ.get("VERIF_NO_SELFTEST"):
+        st_res = mutation_self_test(pid)
+        cov["mutation_self_test"] = st_res
+        if st_res.get("survivors"):
+            lines.append(f"SELF-TEST: {len(st_res['survivors'])} seeded mutant(s) survived the quick check of {pid}: the contracts are too weak there (checker weakness, not a verdict about the code)")
+            if exit_code == 0: exit_code = 3
     ev = {"property_id": pid, "tier": tier, "seed": seed, "level": level, "coverage": cov,
           "assumptions": COMMON_ASSUMPTIONS + list(res.assumptions), "wall_s": round(time.time() - t0, 2), "violations": len(violations)}
     evdir = os.path.join(VERIF, "evidence") if os.path.realpath(REPO) == "/repo" else os.path.join(OUT, "evidence_scratch")
@@ -185,3 +191,31 @@ def run_property(pid, build, tier="quick", seed=0, budget_ms=None, thorough_extr
           f"canaries={cov['canaries_refuted']}/{len(canaries)} bounded={len(res.bounded)} solver_s={solver_s} wall_s={ev['wall_s']}")
     for l in lines: print(l)
     return exit_code
+
+
+def mutation_self_test(pid):
+    """thorough tier: every mutant of props/mutants.py for this property, on a scratch copy outside /repo and /verif (removed afterwards),
+    must make the quick check leave exit 0"""
+    import shutil, tempfile
+    try:
+        from props.mutants import M
+    except Exception as ex:
+        return {"error": repr(ex)}
+    out = {"mutants": 0, "killed": 0, "survivors": [], "details": []}
+    for rel, old, new, what in M.get(pid, []):
+        d = tempfile.mkdtemp(prefix="amshan_selftest_")
+        try:
+            shutil.copytree(REPO, d + "/repo", ignore=shutil.ignore_patterns(".git", "__pycache__", "*.egg-info"))
+            pth = os.path.join(d, "repo", rel); src = open(pth).read()
+            if src.count(old) != 1:
+                out["details"].append({"mutant": what, "skipped": "pattern does not occur exactly once (source changed)"}); continue
+            open(pth, "w").write(src.replace(old, new))
+            p = subprocess.run([os.path.join(VERIF, "check"), pid, "--tier", "quick"], env=dict(os.environ, VERIF_REPO=d + "/repo", VERIF_TIER="quick"), capture_output=True, text=True, timeout=1800)
+            out["mutants"] += 1
+            first = next((l.strip() for l in p.stdout.splitlines() if "failed obligation" in l), None)
+            if p.returncode != 0: out["killed"] += 1
+            else: out["survivors"].append(what)
+            out["details"].append({"mutant": what, "exit": p.returncode, "first_failed_obligation": first})
+        finally:
+            shutil.rmtree(d, ignore_errors=True)
+    return out
